@@ -63,7 +63,7 @@ def correspond(res):
     for i in range(n_hist):
         mode = MODES[i % len(MODES)]
         spec = D.gen_spec(rng, mode)
-        if res.tier == "quick" and mode == "pct" and i % 20 >= 10:
+        if res.tier == "quick" and mode == "pct" and i % 30 not in (6, 7):
             spec["mode"] = mode = "small"
             spec["N0"] = 3
         obs = D.run_engine(spec)
